@@ -480,6 +480,11 @@ func (f *frame) pureCall(in *ssa.Call) {
 		case "imax":
 			setT(sx("imax", args[0][0].T, args[1][0].T), sx("imax", args[0][1].T, args[1][1].T))
 			return
+		case "isclosed":
+			// isclosed(ch): has the channel been closed?
+			x.comp("Chan_closed", "(Array Int Bool)")
+			setT(sx("select", f.mem[0].heapOf("Chan_closed", "(Array Int Bool)"), args[0][0].T), sx("select", f.mem[1].heapOf("Chan_closed", "(Array Int Bool)"), args[0][1].T))
+			return
 		case "visited":
 			// visited(k): has the enclosing range-over-map loop (key type of k) produced key k?
 			ks := x.X.sortOf(in.Call.Args[0].Type())
@@ -487,7 +492,7 @@ func (f *frame) pureCall(in *ssa.Call) {
 			x.comp(vcn, vsort)
 			setT(sx("select", f.mem[0].heapOf(vcn, vsort), args[0][0].T), sx("select", f.mem[1].heapOf(vcn, vsort), args[0][1].T))
 			return
-		case "sameslice", "samemap":
+		case "sameslice", "samemap", "sameval":
 			setT(eq(args[0][0].T, args[1][0].T), eq(args[0][1].T, args[1][1].T))
 			return
 		case "str":
